@@ -576,9 +576,18 @@ func execLad(f []string) vlib.Res {
 				rawSettled(s.build(markers[p], nil, nil), remoteFor(p, "tcp", false, 60000+n))
 			}
 		}
+		if a["den"] == "1" {
+			// a validated NSEC3 proof covers the name: the decoded ladder synthesizes the denial
+			// before it looks at failure state, and a failure recorded over such a zone carries no
+			// miss witness (NSEC3 misses can be crypto-budget starvation)
+			seedDenial(names)
+		}
 		seedState(map[string]string{"cut": a["cut"], "fail": strings.ReplaceAll(a["fail"], "-", ""), "qc": fmt.Sprint(s.qclass)}, names, s.qtype, cd)
 		rung := func(r reply, calls int64) string {
 			if calls == 0 && r.m != nil && r.m.Rcode == dns.RcodeNameError {
+				if a["den"] == "1" && a["cut"] != "1" {
+					return "denial"
+				}
 				return fmt.Sprintf("cut:%d", len(r.m.Ns)) // which proof template was served
 			}
 			switch {
